@@ -397,6 +397,54 @@ def runs_only_when(cfg, n, atom: str, value: bool) -> bool:
     return False
 
 
+def built_sequence(f, e: ast.AST):
+    """Describe how a list/sequence value is produced, whichever way it is
+    written: a comprehension `[elt for tgt in it if c]`, or a local that
+    starts as `[]` and is filled by `.append(elt)` inside (async) for loops.
+    Returns [{'iter', 'target', 'elt', 'ifs', 'site'}] (one entry per
+    producing site) or None when the shape is something else."""
+    e = strip_await(e)
+    if isinstance(e, (ast.ListComp, ast.GeneratorExp, ast.SetComp)):
+        if len(e.generators) != 1:
+            return None
+        g = e.generators[0]
+        return [{'iter': g.iter, 'target': g.target, 'elt': e.elt,
+                 'ifs': list(g.ifs), 'site': e}]
+    if isinstance(e, ast.Call) and call_name(e) in ('list', 'tuple',
+                                                    'frozenset', 'sorted') \
+            and len(e.args) == 1:
+        return built_sequence(f, e.args[0])
+    if isinstance(e, ast.Name) and e.id not in f.params():
+        defs = [v for _, v in local_assigns(f, e.id)]
+        if not defs:
+            return None
+        if len(defs) == 1 and defs[0] is not None and not (
+                isinstance(defs[0], ast.List) and not defs[0].elts):
+            return built_sequence(f, defs[0])
+        if not all(isinstance(d, ast.List) and not d.elts for d in defs):
+            return None
+        out = []
+        for c in calls_in(f.node):
+            if not (isinstance(c.func, ast.Attribute)
+                    and is_name(c.func.value, e.id)):
+                continue
+            if c.func.attr != 'append' or len(c.args) != 1:
+                if c.func.attr in ('extend', 'insert', 'remove', 'pop',
+                                   'clear', 'sort', 'reverse'):
+                    return None
+                continue
+            loops = enclosing(f.node, c, (ast.For, ast.AsyncFor))
+            if len(loops) != 1:
+                return None
+            conds = [t.test for t in enclosing(f.node, c, (ast.If,))
+                     if any(t is x for x in ast.walk(loops[0]))]
+            out.append({'iter': loops[0].iter, 'target': loops[0].target,
+                        'elt': c.args[0], 'ifs': conds, 'site': c,
+                        'loop': loops[0]})
+        return out or None
+    return None
+
+
 def truth_table(fn: ast.AST, atoms: list[str]):
     """The boolean function a small function body computes, as a table over
     the given atom expressions (matched by source text): statements may be
